@@ -173,7 +173,7 @@ def _axioms():
     g.append(("A2.atan2_positively_homogeneous_division", fa([c, y, x], z3.Implies(c > 0, ATAN2(QUOT(y, c), QUOT(x, c)) == ATAN2(y, x)), [ATAN2(QUOT(y, c), QUOT(x, c))])))
     ax.setdefault("quotient", []).append(("A1.quotient_times_divisor", fa([x, c], z3.Implies(c != 0, QUOT(x, c) * c == x), [QUOT(x, c)])))
     g = ax.setdefault("atan2.polar", [])
-    g.append(("A2.atan2_polar_form", fa([h, y, x], z3.Implies(z3.And(h >= 0, h * h == x * x + y * y), z3.And(h * COS(ATAN2(y, x)) == x, h * SIN(ATAN2(y, x)) == y)))))
+    g.append(("A2.atan2_polar_form", fa([y, x], z3.And(HYP(x, y, 0) * COS(ATAN2(y, x)) == x, HYP(x, y, 0) * SIN(ATAN2(y, x)) == y))))
     g = ax.setdefault("trig.shift", [])
     g.append(("A2.sin_cos_quarter_shift", fa([a], z3.And(SIN(a - HALF_PI) == -COS(a), COS(a - HALF_PI) == SIN(a)))))
     g.append(("A2.sin_cos_half_shift", fa([a], z3.And(SIN(a + PI) == -SIN(a), COS(a + PI) == -COS(a), SIN(a - PI) == -SIN(a), COS(a - PI) == -COS(a)))))
